@@ -29,7 +29,23 @@ def analyse(pid, root, tier):
     prog = Program(root)
     mod = load_prop(pid)
     ctx = Ctx(pid, prog, tier)
-    mod.run(ctx)
+    known, _fixed = load_known()
+
+    def new_findings():
+        return [f for f in ctx.findings if (pid, f.key) not in known]
+    try:
+        mod.run(ctx)
+    except AnalysisError as e:
+        # part of the analysis refused the tree; findings already made by other rules stand on their own
+        if not new_findings():
+            raise
+        ctx.note(f'analysis incomplete: {e}')
+    fails = getattr(ctx, 'floor_failures', [])
+    if fails:
+        if not new_findings():
+            raise AnalysisError(fails[0])
+        for f in fails:
+            ctx.note(f'instance floor not met (reported findings are unaffected): {f}')
     if ctx.obligations == 0:
         raise AnalysisError(f'{pid}: no rule instance was examined (vacuous run)')
     return ctx, mod
